@@ -17,6 +17,8 @@ func init() { Registry["C04"] = C04 }
 
 type c04Case struct {
 	Msg   int         `json:"message"`
+	With  []int       `json:"block_with,omitempty"` // other messages proposed in the same block (indices), in queue order
+	Pos   int         `json:"position_in_block"`    // which transfer of the block is damaged (size order)
 	Kind  string      `json:"kind"`
 	Edits []link.Edit `json:"edits"`
 }
@@ -34,6 +36,7 @@ func c04Messages() []sess.MsgSpec {
 
 type c04Base struct {
 	spec       sess.MsgSpec
+	others     []sess.MsgSpec
 	queued     []byte
 	wire       []byte // everything the sender wrote in the clean run
 	start, end int    // SOH..EOT(+checksum) range in wire
@@ -42,21 +45,30 @@ type c04Base struct {
 	dataOffs   []int // offsets (in wire) of payload data bytes
 }
 
-func c04Prepare(spec sess.MsgSpec) c04Base {
-	b := c04Base{spec: spec}
-	l, res, _, q := c04Exchange(spec, nil)
+func c04Prepare(spec sess.MsgSpec, others ...sess.MsgSpec) c04Base {
+	b := c04Base{spec: spec, others: others}
+	l, res, _, q := c04Exchange(spec, nil, others...)
 	if res[0].Err != nil || res[1].Err != nil {
 		panic(fmt.Sprintf("clean C04 base exchange failed: %v / %v", res[0].Err, res[1].Err))
 	}
 	b.queued = q
 	b.wire = append([]byte{}, l.Written(0)...)
+	var order []string
+	fi := 0
 	for _, it := range parseWire(b.wire) {
 		if strings.HasPrefix(it.Line, "FC ") {
 			f := strings.Fields(it.Line)
-			b.usize, _ = strconv.Atoi(f[3])
-			b.csize, _ = strconv.Atoi(f[4])
+			order = append(order, f[2])
+			if f[2] == spec.MID {
+				b.usize, _ = strconv.Atoi(f[3])
+				b.csize, _ = strconv.Atoi(f[4])
+			}
 		}
 		if it.Frame != nil {
+			fi++
+			if order[fi-1] != spec.MID {
+				continue
+			}
 			b.start, b.end = it.Off, it.End
 			// data byte offsets
 			i := it.Off + 2 + it.Frame.HeaderLen
@@ -75,10 +87,13 @@ func c04Prepare(spec sess.MsgSpec) c04Base {
 }
 
 // c04Exchange runs sender (party 0, slave, speaks first) -> receiver with the given edits.
-func c04Exchange(spec sess.MsgSpec, edits []link.Edit) (*link.Link, [2]sess.Result, [2]*sess.Box, []byte) {
+func c04Exchange(spec sess.MsgSpec, edits []link.Edit, others ...sess.MsgSpec) (*link.Link, [2]sess.Result, [2]*sess.Box, []byte) {
 	snd, rcv := sess.NewBox("snd"), sess.NewBox("rcv")
 	m := spec.Build("N0SND")
 	snd.AddOut(m)
+	for _, o := range others {
+		snd.AddOut(o.Build("N0SND"))
+	}
 	plan := link.Plan{Cut: link.NoCut(), FailAfter: -1}
 	plan.Edits[0] = edits
 	l, res := sess.RunPair(sess.Station{Call: "N0SND", Locator: "AA00aa", Handler: snd}, sess.Station{Call: "N0RCV", Locator: "BB11bb", Master: true, Handler: rcv}, plan)
@@ -136,12 +151,12 @@ func (b *c04Base) judge(edits []link.Edit) (string, string, bool) {
 	if b.refAccepts(b.alter(edits)) {
 		return "", "", true
 	}
-	l, res, boxes, queued := c04Exchange(b.spec, edits)
+	l, res, boxes, queued := c04Exchange(b.spec, edits, b.others...)
 	_ = l
 	mid := b.spec.MID
 	delivered := 0
 	for _, c := range boxes[1].CallsOf("ProcessInbound") {
-		if c.MID == mid || true {
+		if c.MID == mid {
 			delivered++
 			if !bytes.Equal(c.Bytes, queued) {
 				return "delivered-altered-content", fmt.Sprintf("ProcessInbound got %d bytes differing from the %d queued (receiver error: %v)", len(c.Bytes), len(queued), res[1].Err), false
@@ -176,7 +191,11 @@ func C04(args []string) {
 			Case c04Case `json:"case"`
 		}
 		readJSON(p, &f)
-		b := c04Prepare(msgs[f.Case.Msg])
+		var others []sess.MsgSpec
+		for _, k := range f.Case.With {
+			others = append(others, msgs[k])
+		}
+		b := c04Prepare(msgs[f.Case.Msg], others...)
 		c, d, ex := b.judge(f.Case.Edits)
 		fmt.Printf("message %d (%s) frame at [%d,%d) edits %+v: class=%q %s excluded=%v\n", f.Case.Msg, msgs[f.Case.Msg].MID, b.start, b.end, f.Case.Edits, c, d, ex)
 		return
@@ -194,19 +213,19 @@ func C04(args []string) {
 				// multi-chunk message in the quick tier: a fixed menu per byte instead of all 255
 				for _, v := range []byte{orig + 1, orig - 1, orig ^ 0x80, 0, 0xff, orig + b.wire[b.dataOffs[0]] + b.wire[b.dataOffs[1]]} {
 					if v != orig {
-						cases = append(cases, c04Case{mi, "subst", []link.Edit{{Off: off, Del: 1, Ins: []byte{v}}}})
+						cases = append(cases, c04Case{Msg: mi, Kind: "subst", Edits: []link.Edit{{Off: off, Del: 1, Ins: []byte{v}}}})
 					}
 				}
 			} else {
 				for v := 0; v < 256; v++ {
 					if byte(v) != orig {
-						cases = append(cases, c04Case{mi, "subst", []link.Edit{{Off: off, Del: 1, Ins: []byte{byte(v)}}}})
+						cases = append(cases, c04Case{Msg: mi, Kind: "subst", Edits: []link.Edit{{Off: off, Del: 1, Ins: []byte{byte(v)}}}})
 					}
 				}
 			}
-			cases = append(cases, c04Case{mi, "delete", []link.Edit{{Off: off, Del: 1}}})
+			cases = append(cases, c04Case{Msg: mi, Kind: "delete", Edits: []link.Edit{{Off: off, Del: 1}}})
 			for _, v := range []byte{0, 1, 2, 4, 0xff} {
-				cases = append(cases, c04Case{mi, "insert", []link.Edit{{Off: off, Ins: []byte{v}}}})
+				cases = append(cases, c04Case{Msg: mi, Kind: "insert", Edits: []link.Edit{{Off: off, Ins: []byte{v}}}})
 			}
 		}
 		// checksum-compensating pairs on data bytes
@@ -214,29 +233,64 @@ func C04(args []string) {
 			for dist := 1; dist <= 8 && i+dist < len(b.dataOffs); dist++ {
 				o2 := b.dataOffs[i+dist]
 				for _, d := range []byte{1, 2, 0x80, 0xff} {
-					cases = append(cases, c04Case{mi, "pair", []link.Edit{{Off: o1, Del: 1, Ins: []byte{b.wire[o1] + d}}, {Off: o2, Del: 1, Ins: []byte{b.wire[o2] - d}}}})
+					cases = append(cases, c04Case{Msg: mi, Kind: "pair", Edits: []link.Edit{{Off: o1, Del: 1, Ins: []byte{b.wire[o1] + d}}, {Off: o2, Del: 1, Ins: []byte{b.wire[o2] - d}}}})
 				}
 			}
 			if i+1 < len(b.dataOffs) && b.wire[o1] != b.wire[b.dataOffs[i+1]] {
 				o2 := b.dataOffs[i+1]
-				cases = append(cases, c04Case{mi, "swap", []link.Edit{{Off: o1, Del: 1, Ins: []byte{b.wire[o2]}}, {Off: o2, Del: 1, Ins: []byte{b.wire[o1]}}}})
+				cases = append(cases, c04Case{Msg: mi, Kind: "swap", Edits: []link.Edit{{Off: o1, Del: 1, Ins: []byte{b.wire[o2]}}, {Off: o2, Del: 1, Ins: []byte{b.wire[o1]}}}})
 			}
 		}
 		// data byte compensated in the EOT checksum byte
 		for _, o1 := range b.dataOffs {
 			for _, d := range []byte{1, 0x80} {
-				cases = append(cases, c04Case{mi, "pair-with-checksum", []link.Edit{{Off: o1, Del: 1, Ins: []byte{b.wire[o1] + d}}, {Off: b.end - 1, Del: 1, Ins: []byte{b.wire[b.end-1] - d}}}})
+				cases = append(cases, c04Case{Msg: mi, Kind: "pair-with-checksum", Edits: []link.Edit{{Off: o1, Del: 1, Ins: []byte{b.wire[o1] + d}}, {Off: b.end - 1, Del: 1, Ins: []byte{b.wire[b.end-1] - d}}}})
 			}
 		}
 	}
-	bases := map[int]*c04Base{}
+	// blocks of two and three accepted messages: damage in a transfer that is not the last of its
+	// block must still fail the whole exchange (sum-preserving pairs, a substitution menu, deletions)
+	blocks := [][]int{{0, 4}, {4, 0}, {0, 4, 5}, {5, 0, 4}}
+	if r.Thorough() {
+		blocks = append(blocks, []int{1, 0}, []int{0, 1, 4}, []int{2, 5})
+	}
+	for _, blk := range blocks {
+		var others []sess.MsgSpec
+		for _, k := range blk[1:] {
+			others = append(others, msgs[k])
+		}
+		b := c04Prepare(msgs[blk[0]], others...)
+		for i, o1 := range b.dataOffs {
+			if i+1 < len(b.dataOffs) {
+				o2 := b.dataOffs[i+1]
+				cases = append(cases, c04Case{Msg: blk[0], With: blk[1:], Kind: "pair-in-block", Edits: []link.Edit{{Off: o1, Del: 1, Ins: []byte{b.wire[o1] + 1}}, {Off: o2, Del: 1, Ins: []byte{b.wire[o2] - 1}}}})
+			}
+			if i%7 == 0 {
+				cases = append(cases, c04Case{Msg: blk[0], With: blk[1:], Kind: "subst-in-block", Edits: []link.Edit{{Off: o1, Del: 1, Ins: []byte{b.wire[o1] ^ 0x55}}}},
+					c04Case{Msg: blk[0], With: blk[1:], Kind: "delete-in-block", Edits: []link.Edit{{Off: o1, Del: 1}}})
+			}
+		}
+		for off := b.start; off < b.start+12 && off < b.end; off++ {
+			for _, v := range []byte{0, 1, 2, 4, 0xff, b.wire[off] + 1, b.wire[off] - 1} {
+				if v != b.wire[off] {
+					cases = append(cases, c04Case{Msg: blk[0], With: blk[1:], Kind: "subst-in-block", Edits: []link.Edit{{Off: off, Del: 1, Ins: []byte{v}}}})
+				}
+			}
+		}
+	}
+	bases := map[string]*c04Base{}
 	r.Sharded(len(cases), func(i int) {
 		c := cases[i]
-		b := bases[c.Msg]
+		key := fmt.Sprint(c.Msg, c.With)
+		b := bases[key]
 		if b == nil {
-			x := c04Prepare(msgs[c.Msg])
+			var others []sess.MsgSpec
+			for _, k := range c.With {
+				others = append(others, msgs[k])
+			}
+			x := c04Prepare(msgs[c.Msg], others...)
 			b = &x
-			bases[c.Msg] = b
+			bases[key] = b
 		}
 		class, detail, excluded := b.judge(c.Edits)
 		r.Evals.Add(1)
